@@ -185,8 +185,16 @@ impl NonOwningDecoder {
                 {
                     *num_init_seq_bytes += 1;
                 } else {
-                    *num_discarded_bytes += 1 + u16::from(*num_init_seq_bytes);
-                    *num_init_seq_bytes = 0;
+                    // the mismatching byte may itself belong to a start sequence: after four or
+                    // more 0x1b bytes, another 0x1b keeps the last four; after `1b1b1b1b 01..`,
+                    // a 0x1b is the first byte of a new candidate.
+                    let keep = match (b, *num_init_seq_bytes) {
+                        (0x1b, 4) => 4,
+                        (0x1b, _) => 1,
+                        _ => 0,
+                    };
+                    *num_discarded_bytes += 1 + u16::from(*num_init_seq_bytes) - u16::from(keep);
+                    *num_init_seq_bytes = keep;
                 }
                 if *num_init_seq_bytes == 8 {
                     let num_discarded_bytes = *num_discarded_bytes;
